@@ -66,6 +66,18 @@ def run(ctx, b, broken):
     gen_bad = []
     ctx.notes["rule"] = "accepted programs (generator programs, the repository corpus after cpp, accepted token mutants) x both generator configurations; non-trivial = program with >= 1 nested expression and >= 1 non-trivial declarator; distinct by text"
     replay_known(ctx, roundtrip)
+    import props.C06 as C06z
+    for text, _valid in ZOO:
+        for variant in [text] + [" ".join(C06z.mutate(text.split(" "), ctx.rng)) for _ in range(6)]:
+            ctx.evaluations += 1
+            ctx.count("suite:zoo")
+            bad = roundtrip(variant)
+            if bad:
+                su.violation(variant, bad)
+            try:
+                gen_corr(su, ctx, parse_impl_ast(variant), variant, gen_bad)
+            except Exception:
+                pass
     n = 800 if ctx.tier == "quick" else 10000
     for g, toks, exp in gen_cases(ctx, n, size=(1, 4)):
         text, pos = cgen.layout(toks, ctx.rng, "single")
